@@ -7,6 +7,12 @@ package main
 
 import (
 	"fmt"
+	"go/scanner"
+	"go/token"
+	"os"
+	"path/filepath"
+	"sort"
+	"strconv"
 	"strings"
 
 	"github.com/bitcoin-sv/block-headers-service/verifharness/lib"
@@ -16,6 +22,24 @@ func c01DeepReorgs(c *Ctx, l *lib.Lean) error {
 	sizes := []int{998, 999, 1000}
 	if c.Thorough {
 		sizes = []int{499, 500, 501, 997, 998, 999, 1000, 1001, 1996, 1998, 2000}
+	}
+	if c.Thorough {
+		// depths derived from the source under check: every integer literal between 50 and 16000 in the files of the
+		// write path is a candidate for a limit somebody built in; the reorganisation is tried at the literal and just
+		// beyond it (oracle only above 2500 headers per side: the list-based model is quadratic)
+		have := map[int]bool{}
+		for _, n := range sizes {
+			have[n] = true
+		}
+		for _, v := range sourceIntLiterals([]string{"database/sql/headers.go", "database/repository/header_repository.go", "service/chain_service.go"}, 50, 16000) {
+			for _, n := range []int{v, v + 1, v + 2} {
+				if !have[n] {
+					have[n] = true
+					sizes = append(sizes, n)
+					c.R.Count("reorganisation depth taken from an integer literal of the source", 1)
+				}
+			}
+		}
 	}
 	for _, n := range sizes {
 		var nodes []Node
@@ -45,10 +69,12 @@ func c01DeepReorgs(c *Ctx, l *lib.Lean) error {
 		}
 		lines = append(lines, "tip")
 		impl = append(impl, ci.Op("tip"))
-		ans, err := l.AskBatch(lines)
-		if err != nil {
-			ci.Close()
-			return err
+		ans := impl
+		if n <= 2500 {
+			if ans, err = l.AskBatch(lines); err != nil {
+				ci.Close()
+				return err
+			}
 		}
 		ctx := []string{fmt.Sprintf("# c01 deep: A1..A%d longest, B1..B%d stale (same work, seen later), then B%d (seed %d)", n, n, n+1, c.Seed)}
 		for i := range lines {
@@ -85,4 +111,39 @@ func c01DeepReorgs(c *Ctx, l *lib.Lean) error {
 		}
 	}
 	return nil
+}
+
+// sourceIntLiterals returns the distinct decimal integer literals v (lo <= v <= hi) of the given files of the tree
+// under check, ascending.
+func sourceIntLiterals(files []string, lo, hi int) []int {
+	seen := map[int]bool{}
+	for _, f := range files {
+		src, err := os.ReadFile(filepath.Join(lib.RepoRoot(), f))
+		if err != nil {
+			continue
+		}
+		var sc scanner.Scanner
+		fs := token.NewFileSet()
+		sc.Init(fs.AddFile(f, fs.Base(), len(src)), src, nil, 0)
+		for {
+			_, tok, lit := sc.Scan()
+			if tok == token.EOF {
+				break
+			}
+			if tok == token.INT || tok == token.STRING {
+				// numbers inside SQL text count too
+				for _, w := range strings.FieldsFunc(lit, func(r rune) bool { return r < '0' || r > '9' }) {
+					if v, err := strconv.Atoi(w); err == nil && v >= lo && v <= hi {
+						seen[v] = true
+					}
+				}
+			}
+		}
+	}
+	var out []int
+	for v := range seen {
+		out = append(out, v)
+	}
+	sort.Ints(out)
+	return out
 }
